@@ -794,8 +794,10 @@ func (vm *VirtualMachine) pop() object.Object {
 }
 
 func (vm *VirtualMachine) push(obj object.Object) {
+	// Store before moving the stack pointer: on overflow the index panic then
+	// leaves sp in range, so unwinding and later calls on this VM still work.
+	vm.stack[vm.sp+1] = obj
 	vm.sp++
-	vm.stack[vm.sp] = obj
 }
 
 func (vm *VirtualMachine) swap(pos int) {
